@@ -2605,6 +2605,14 @@ fn main() {
             out.count("corpus");
         }
     }
+    //   /repo 6b28a55 (fixed): `<xf numFmtId="014">` was not the date format 14 (leading zeros were significant); with
+    //   `pct_id_zero_pad` every occurrence of an id, built-in or custom, is padded on its own (seeds % 7 < 3)
+    for seed in [7u64, 14, 21] {
+        let c = StyleCase { kind: "xlsx", defs: vec![], xfs: vec![0, 14], date1904: false, seed };
+        check_file(&c, &mut drv, &mut out, false);
+        out.cases.push((c.wire(), true));
+        out.count("corpus");
+    }
     //   round 5: m18 — `ext:s` / `xmlns:s` on a <c> are not its style (seeds % 5 < 2); m17 — `numFmtId="0164"` in <numFmt>
     //   and <xf> alike is format 164 (seeds % 7 < 3); m19 — `date1904="&#49;"` is the 1904 system (seed % 4 == 1)
     for seed in [5u64, 15, 21, 35, 70, 1, 57, 85] {
